@@ -45,8 +45,8 @@ func verifReorder(shards []shardWrapper, sorted bool) {
 	slices.SortStableFunc(shards, func(a, b shardWrapper) int { return pos(a) - pos(b) })
 }
 
-// VerifShard returns the shard with the given identifier (verification harness only).
-func (e *StorageEngine) VerifShard(id string) *shard.Shard {
+// VerifShardStr returns the shard with the given identifier string (verification harness only).
+func (e *StorageEngine) VerifShardStr(id string) *shard.Shard {
 	return e.getShard(id).Shard
 }
 
